@@ -11,6 +11,10 @@ import (
 	"time"
 	"unicode/utf8"
 
+	"github.com/jsightapi/jsight-api-go-library/core"
+	"github.com/jsightapi/jsight-api-go-library/kit"
+	"github.com/jsightapi/jsight-schema-go-library/fs"
+
 	"verif/internal/drv"
 	"verif/internal/fw"
 	"verif/internal/jsonx"
@@ -202,6 +206,7 @@ func collOf(path string) string {
 }
 
 func runC09(c *fw.Ctx) {
+	runC09Sequences(c)
 	dir := drv.NewDir(fw.Scratch("c09"))
 	defer os.RemoveAll(filepath.Dir(dir.Path))
 	defer dir.Close()
@@ -231,4 +236,116 @@ func runC09(c *fw.Ctx) {
 		}
 		c.Sample(sc.stream, 1, map[string]interface{}{"stream": sc.stream, "label": sc.label, "root": clipS(sc.proj.Files[sc.proj.Root], 200)})
 	})
+}
+
+// runC09Sequences: the serialisations of one JApi object under every history of calls. ALL
+// sequences of length 1..4 (thorough 5) over {ValidateJAPI, ToJson, ToJsonIndent, Title} on one
+// object, for accepted and rejected documents: once the project has been accepted, every ToJson
+// equals the ToJson of a fresh object that was only validated, every ToJsonIndent denotes the same
+// value, Title() equals info.title - whatever was called before (also before validation).
+func runC09Sequences(c *fw.Ctx) {
+	docs := map[string]string{
+		"api":      "JSIGHT 0.3\nINFO\n  Title \"Seq \\\"API\\\"\"\n  Version 1\nTAG @g\nTYPE @t\n  {\"id\": 1}\nURL /a/{id}\n  Path\n    {\"id\": 1}\n  GET // get\n    Tags @g\n    200 @t\nURL /rpc\n  Protocol json-rpc-2.0\n  Method m\n    Params\n      {\"p\": @t}\n",
+		"no-info":  "JSIGHT 0.3\nGET /x\n  200 regex\n    /a+/\n",
+		"rejected": "JSIGHT 0.3\nGET /x\n  200 @nope\n",
+	}
+	ops := []string{"V", "J", "I", "T"}
+	maxLen := 4
+	if !c.Quick() {
+		maxLen = 5
+	}
+	type ref struct {
+		ok    bool
+		j     string
+		title string
+	}
+	refs := map[string]ref{}
+	names := []string{"api", "no-info", "rejected"}
+	for _, n := range names {
+		j := kit.NewJApiFromFile(fs.NewFile("root.jst", []byte(docs[n])), core.WithFixedSeedForRegex())
+		r := ref{}
+		if je := j.ValidateJAPI(); je == nil {
+			b, err := j.ToJson()
+			r = ref{err == nil, string(b), j.Title()}
+		}
+		refs[n] = r
+	}
+	canon := func(s string) string {
+		v, _, err := jsonx.Parse([]byte(s))
+		if err != nil {
+			return "unparsable: " + err.Error()
+		}
+		return v.Canon()
+	}
+	var seq []string
+	var rec func()
+	rec = func() {
+		if len(seq) > 0 {
+			for _, n := range names {
+				if !c.Next() {
+					continue
+				}
+				c.Count("evaluations", 1)
+				c.Distinct("seq|" + n + "|" + strings.Join(seq, ""))
+				func() {
+					defer func() {
+						if recover() != nil {
+							c.Count("skipped_crash", 1) // totality is C01's
+						}
+					}()
+					j := kit.NewJApiFromFile(fs.NewFile("root.jst", []byte(docs[n])), core.WithFixedSeedForRegex())
+					accepted := false
+					for i, op := range seq {
+						bad := ""
+						switch op {
+						case "V":
+							je := j.ValidateJAPI()
+							if i == indexOf(seq, "V") {
+								accepted = je == nil
+								if accepted != refs[n].ok {
+									bad = fmt.Sprintf("ValidateJAPI after the calls %v says accepted=%v, on a fresh object %v", seq[:i], accepted, refs[n].ok)
+								}
+							}
+						case "J":
+							b, err := j.ToJson()
+							if accepted && (err != nil || string(b) != refs[n].j) {
+								bad = fmt.Sprintf("ToJson gives %s (err %v), a fresh validated object gives %s", clipS(string(b), 120), err, clipS(refs[n].j, 120))
+							}
+						case "I":
+							b, err := j.ToJsonIndent()
+							if accepted && (err != nil || canon(string(b)) != canon(refs[n].j)) {
+								bad = fmt.Sprintf("ToJsonIndent (err %v) does not denote the value of the compact form of a fresh validated object", err)
+							}
+						case "T":
+							if t := j.Title(); accepted && t != refs[n].title {
+								bad = fmt.Sprintf("Title() = %q, a fresh validated object says %q", t, refs[n].title)
+							}
+						}
+						if bad != "" {
+							c.Violate("call-history-changes-result", "C09:sequence:"+op, fmt.Sprintf("document %s, calls %v, call %d (%s): %s", n, seq, i+1, op, bad), map[string]interface{}{"text": docs[n], "calls": strings.Join(seq, " ")})
+							return
+						}
+					}
+				}()
+			}
+		}
+		if len(seq) == maxLen {
+			return
+		}
+		for _, op := range ops {
+			seq = append(seq, op)
+			rec()
+			seq = seq[:len(seq)-1]
+		}
+	}
+	rec()
+}
+
+func indexOf(ss []string, x string) int {
+	for i, s := range ss {
+		if s == x {
+			return i
+		}
+	}
+	return -1
 }
